@@ -15,9 +15,11 @@
                            Host::parse_opaque, Display for Host (arbitrary functions in every theorem)
      five_schemes          [ftp; http; https; ws; wss]
      count58               number of ':' bytes
+     plainc c              32 < c < 128 and c is none of : / \ ? # @ [ ]   (Proofs/C16_RT.v)
+     plain_text t          t <> [] and every byte of t satisfies plainc (the texts of domains and IPv4 hosts)
    Strings are lists of UTF-8 bytes. *)
 From RU Require Import Base.Prelude Base.Utf8 Gen.Tables Model.HostT Model.UrlRecord Model.Parser Model.Origin
-  Proofs.C16_Conc Proofs.C16_Origin Proofs.C16_Example.
+  Proofs.C16_Conc Proofs.C16_Origin Proofs.C16_RT Proofs.C16_Example.
 
 (* the code as it is today increments COUNTER with one atomic fetch_add (re-proved against the
    regenerated table on every run; a load/store pair makes this fail) *)
@@ -232,9 +234,8 @@ Definition C16_rt_statement : Prop :=
     /\ (exists w, url_parse dbg hp ho hd (unicode_serialization hd tu o) = POk w
                   /\ url_origin dbg hp ho hd c' w = OOk o c').
 (* PROVED: the exact shape of both serializations - scheme "://" host [":" port], the port written
-   exactly when it is not the scheme's default, "null" for opaque origins.  The parser half (that this
-   text parses back to scheme, host and port) is not proved; the Example below runs it inside Coq on
-   concrete URLs and the check's search phase evaluates it on the implementation. *)
+   exactly when it is not the scheme's default, "null" for opaque origins - for all origins.  The parser
+   half is C16_rt_plain below (domains and IPv4 hosts). *)
 Theorem C16_rt_partial : forall hd tu s h p,
   ascii_serialization hd (Tuple s h p)
   = s ++ s_css ++ host_fmt hd h ++ (if opt_eqb (default_port s) (Some p) then [] else 58 :: decimal p)
@@ -257,6 +258,34 @@ Check C16_rt_partial : forall hd tu s h p,
       ascii_serialization hd (Tuple s h p) = s ++ s_css ++ host_fmt hd h ++ 58 :: decimal p)
   /\ (forall i, ascii_serialization hd (Opaque i) = s_null /\ unicode_serialization hd tu (Opaque i) = s_null).
 Print Assumptions C16_rt_partial.
+
+(* PROVED, the parser half included, for every tuple origin (s, h, p) whose host text is plain (printable ASCII
+   without : / \ ? # @ [ ] - all domains and IPv4 addresses, not IPv6) by symbolic execution of the parser
+   model on  scheme "://" host [":" port]: given that Display and Host::parse are inverse on this host (C09)
+   and the text is shorter than 2^32, the ASCII serialization parses to a URL whose origin is (s, h, p) again;
+   the same for the Unicode serialization when the ToUnicode form of the domain is plain ASCII as well and
+   parses back to h (C12).  Every port below 2^16 is read back from its decimal text (finite sweep).
+   Not covered: IPv6 hosts and non-ASCII Unicode forms (C16_rt_statement). *)
+Theorem C16_rt_plain : forall dbg hp ho hd tu s h p,
+  In s [s_ftp; s_http; s_https; s_ws; s_wss] -> p <= 65535 ->
+  plain_text (host_fmt hd h) -> hd h = host_fmt hd h -> hp (host_fmt hd h) = Ok h ->
+  nlen (ascii_serialization hd (Tuple s h p)) < U32_MAX_P ->
+  (exists w, url_parse dbg hp ho hd (ascii_serialization hd (Tuple s h p)) = POk w
+             /\ forall f k, url_origin_fuel dbg hp ho hd f k w = OOk (Tuple s h p) k)
+  /\ (forall d, h = HDomain d -> plain_text (tu d) -> hp (tu d) = Ok h ->
+      exists w, url_parse dbg hp ho hd (unicode_serialization hd tu (Tuple s h p)) = POk w
+                /\ forall f k, url_origin_fuel dbg hp ho hd f k w = OOk (Tuple s h p) k).
+Proof. exact rt_plain. Qed.
+Check C16_rt_plain : forall dbg hp ho hd tu s h p,
+  In s [s_ftp; s_http; s_https; s_ws; s_wss] -> p <= 65535 ->
+  plain_text (host_fmt hd h) -> hd h = host_fmt hd h -> hp (host_fmt hd h) = Ok h ->
+  nlen (ascii_serialization hd (Tuple s h p)) < U32_MAX_P ->
+  (exists w, url_parse dbg hp ho hd (ascii_serialization hd (Tuple s h p)) = POk w
+             /\ forall f k, url_origin_fuel dbg hp ho hd f k w = OOk (Tuple s h p) k)
+  /\ (forall d, h = HDomain d -> plain_text (tu d) -> hp (tu d) = Ok h ->
+      exists w, url_parse dbg hp ho hd (unicode_serialization hd tu (Tuple s h p)) = POk w
+                /\ forall f k, url_origin_fuel dbg hp ho hd f k w = OOk (Tuple s h p) k).
+Print Assumptions C16_rt_plain.
 
 (* non-vacuity: the whole chain executed inside Coq (real parser model, stand-in host functions that
    keep a domain as it is).  https://example.com:8443/x has the tuple origin (https, example.com, 8443),
